@@ -109,7 +109,13 @@ const WRAPPERS = [
   (x, v) => `((${x}) + ${v}).slice(1).toUpperCase()`,
   (x, v) => `[${v}, ${x}].join(${v}2)`,
   (x, v) => `(() => (${x}) + ${v})()`,
-  (x, v) => `aloneMethod(${x})`
+  (x, v) => `aloneMethod(${x})`,
+  // long string literals next to / inside the grafted operation (literal collection)
+  (x, v) => `((${x}) + 'spliced literal value ${'$'}{0}')`.replace('${0}', v),
+  (x, v) => `${v}.concat('spliced literal argument', ${x}, "another spliced literal")`,
+  (x, v) => `(${x})?.replace('spliced pattern text', \`tpl \${${v}}\`)`,
+  (x, v) => `({ splicedKey: 'spliced property value', other: ${x} }).other`,
+  (x, v) => `require('spliced-module-name-long')(${x}, new RegExp('spliced regexp source'), 'spliced plain argument')`
 ]
 
 // runnable variant for the execution-based monitors: the chosen expression x becomes `(x is primitive ? OP(x) : 0, x)`,
